@@ -1115,7 +1115,16 @@ pub fn sched_family(prop: &str) -> i32 {
             return 2;
         }
     };
+    // C07 also covers calls after a backend error ("a call returns Err only for ... a backend error" - it must
+    // still return): progress verdicts (deadlock, livelock, panic) of the faulted concurrent executions
+    let mut faulted_conc = json!(null);
+    if prop == "C07" {
+        let (v, j) = faulted_concurrent_part(thorough, "C07");
+        run.add_all(v.into_iter().filter(|v| v.class.contains(":deadlock:") || v.class.contains(":livelock:") || v.class.contains(":panic:")).collect());
+        faulted_conc = j;
+    }
     let cov = json!({
+        "faulted_concurrent_part": faulted_conc,
         "states": sum.steps,
         "transitions": sum.steps,
         "traces_validated_against_impl": sum.execs,
@@ -1426,6 +1435,10 @@ pub fn faulted_concurrent_part(thorough: bool, prop: &str) -> (Vec<Violation>, V
     // fail: pairs of failing requests), then an acknowledged write into the other cluster
     let batch_then_sub = scn.len();
     scn.push(("batch-write;sub-write||read", warm.clone(), vec![vec![w(4 * cs, 2 * cs, 0x11), w(4 * cs, bs, 0x12)], vec![r(0, bs)]]));
+    // an allocating write whose new cluster cannot be zeroed (pairs of failing requests), then a flush that
+    // zeroes the still-new cluster while a second write into that cluster arrives
+    let failed_zero_flush = scn.len();
+    scn.push(("write;flush||sub-write", warm.clone(), vec![vec![w(4 * cs, cs, 0x11), Op::Flush], vec![w(4 * cs + bs, bs, 0x12)]]));
     if prop == "C04" {
         // crash states of a flush that is retried after one of its requests failed, with requests
         // completing in any order (two dirty slices of an L2 table that is on disk already)
@@ -1454,7 +1467,7 @@ pub fn faulted_concurrent_part(thorough: bool, prop: &str) -> (Vec<Violation>, V
         };
         for k in 0..(n + 2).min(48) {
             jobs.push((si, k, None));
-            if prop != "C04" && (si == triple_cold || si == batch_then_sub) {
+            if prop != "C04" && (si == triple_cold || si == batch_then_sub || si == failed_zero_flush) {
                 for k2 in k + 1..(n + 2).min(48) {
                     jobs.push((si, k, Some(k2)));
                 }
